@@ -122,6 +122,15 @@ def near_symmetric(case, rng):
     return dict(case, ent=new_ent, outcomes=outs, N=float(sum(e['en'] for e in new_ent)), near_symmetric=True)
 
 
+def cap_arg(case, rng):
+    """the cap as the caller may write it: an int, the same value as a float, or a real number with a fractional part
+    (2.6, 3.5, 1.75 ...): every rank must still be at most the cap, so the fraction never buys an extra rank"""
+    if case['cap'] == 99:
+        return 1.E+12
+    c = case['cap']
+    return [c, float(c), c + 0.6, c + 0.5, c + 0.75, np.int64(c), c + 0.25][int(rng.integers(7))]
+
+
 def replay_truncate(ctx, case, rng, is_eigh, use_stab, scale_pow=0, pad=False, order=None):
     d = case['d']
     Y, n = F.family_member(d, case['npre'], phys_ent(case))
@@ -141,9 +150,9 @@ def replay_truncate(ctx, case, rng, is_eigh, use_stab, scale_pow=0, pad=False, o
         e = 0.5
     else:
         e = float(np.sqrt((2 * T + 1) * (LAM if tiered(case) else 1.) * (d - 1) / (2.0 * N)))
-    cap = case['cap'] if case['cap'] != 99 else 1.E+12
+    cap = cap_arg(case, rng)
     Z = teneva.truncate(Y, e, cap, use_stab=use_stab, is_eigh=is_eigh)
-    what = 'truncate(e=%.4g, r=%s, is_eigh=%s, use_stab=%s, 2^%d%s)' % (e, case['cap'], is_eigh, use_stab, scale_pow, '' if shifts is None else ', core exponents %s' % shifts)
+    what = 'truncate(e=%.4g, r=%s, is_eigh=%s, use_stab=%s, 2^%d%s)' % (e, cap, is_eigh, use_stab, scale_pow, '' if shifts is None else ', core exponents %s' % shifts)
     if not F.is_wellformed(Z, n):
         return what + ': result is not a well-formed finite TT-tensor of the input shape'
     rz = [int(G.shape[2]) for G in Z[:-1]]
@@ -160,9 +169,9 @@ def replay_svd(ctx, case, rng, scale_pow=0):
     Fd = F.dense(Y) * scale
     T = case['T']
     e = float(np.sqrt((T + 0.5) * (LAM if tiered(case) else 1.))) * scale
-    cap = case['cap'] if case['cap'] != 99 else 1.E+12
+    cap = cap_arg(case, rng)
     Z = teneva.svd(np.array(Fd), e, cap)
-    what = 'svd(e=%.4g, r=%s, scale 2^%d%s)' % (e, case['cap'], scale_pow, ', nearly symmetric unfolding' if case.get('near_symmetric') else '')
+    what = 'svd(e=%.4g, r=%s, scale 2^%d%s)' % (e, cap, scale_pow, ', nearly symmetric unfolding' if case.get('near_symmetric') else '')
     if not F.is_wellformed(Z, n):
         return what + ': result is not a well-formed finite TT-tensor of the input shape'
     rz = [int(G.shape[2]) for G in Z[:-1]]
@@ -182,11 +191,11 @@ def replay_matrix(ctx, case, rng, fn, give_to=None, scale_pow=0):
     T = case['T']
     rel = case['dir'] == 'rel'
     e = float(np.sqrt((T + 0.5) / 8.0)) if rel else float(np.sqrt((T + 0.5) * (LAM if tiered(case) else 1.))) * scale
-    cap = case['cap'] if case['cap'] != 99 else 1.E+12
+    cap = cap_arg(case, rng)
     transpose = False
     if fn == 'skeleton':
         U, V = teneva.matrix_skeleton(np.array(A), e, cap, rel=rel, give_to=give_to)
-        what = 'matrix_skeleton(e=%.4g, r=%s, rel=%s, give_to=%s, 2^%d)' % (e, case['cap'], rel, give_to, scale_pow)
+        what = 'matrix_skeleton(e=%.4g, r=%s, rel=%s, give_to=%s, 2^%d)' % (e, cap, rel, give_to, scale_pow)
     else:
         if rng.random() < 0.5:      # wide and tall inputs take different branches
             transpose = True
@@ -194,7 +203,7 @@ def replay_matrix(ctx, case, rng, fn, give_to=None, scale_pow=0):
             U, V = U_.T, V_.T
         else:
             U, V = teneva.matrix_svd(np.array(A), e, cap)
-        what = 'matrix_svd(e=%.4g, r=%s, transposed=%s, 2^%d)' % (e, case['cap'], transpose, scale_pow)
+        what = 'matrix_svd(e=%.4g, r=%s, transposed=%s, 2^%d)' % (e, cap, transpose, scale_pow)
     if not (U.ndim == 2 and V.ndim == 2 and U.shape[1] == V.shape[0] and U.shape[0] == A.shape[0]
             and V.shape[1] == A.shape[1] and np.isfinite(U).all() and np.isfinite(V).all()):
         return what + ': factors are not finite matrices of matching shapes'
